@@ -267,8 +267,12 @@ def strategy():
         delta = draw(st.sampled_from([-2, -1, 0, 1, 2, 3]))
         which = draw(st.sampled_from(["ds", "ds", "log"]))
         # some callers are threads with a small stack (64-128 KiB): nothing proportional to the configured limits may live on the stack
-        c = {"comp": comp, "l_ds": l_ds, "l_log": l_log, "delta": delta, "which": which,
-             "stack": draw(st.sampled_from([0, 0, 0, 65536, 131072]))}
+        stack = draw(st.sampled_from([0, 0, 0, 65536, 131072]))
+        if stack:
+            # the interesting combination: buffers as large as the configuration allows, stack as small as threads get
+            l_ds = draw(st.sampled_from([65535, 1048575, 1048575]))
+            l_log = draw(st.sampled_from([65535, 1048575, 1048575]))
+        c = {"comp": comp, "l_ds": l_ds, "l_log": l_log, "delta": delta, "which": which, "stack": stack}
         if comp == "ds":
             c["name"] = draw(st.sampled_from(STEERED * 3 + NOARG + WITHARG))
             c["arg"] = draw(st.one_of(st.none(), gen.text_bytes(0, 20), gen.text_bytes(200, 900, boundaries=(254, 255, 256, 900)),
